@@ -794,9 +794,14 @@ fn run_with<F>(
             Option<&gherkin::Rule>,
             &gherkin::Scenario,
         ) -> ScenarioType
+        + Clone
         + 'static,
 {
     let cfg = &case.cfg;
+    // In every other tracing run the runner is configured through the builder
+    // methods of `Cucumber` (after the CLI options were given), not directly.
+    let late_hooks = cfg.tracing && case.schedule.seed % 2 == 0;
+    let plain = late_hooks.then(|| basic.clone());
     match &cfg.conc_builder {
         None => {}
         Some(Value::String(s)) if s == "default" => {}
@@ -864,19 +869,53 @@ fn run_with<F>(
                     as Pin<Box<dyn Future<Output = ()>>>
             }};
         }
-        let late_hooks = case.schedule.seed % 2 == 0;
+        // the runner configuration, applied with the `Cucumber` builder
+        macro_rules! late_cfg {
+            ($c:expr) => {{
+                let mut c = $c;
+                match &cfg.conc_builder {
+                    None => {}
+                    Some(Value::String(s)) if s == "default" => {}
+                    Some(Value::String(s)) if s == "none" => {
+                        c = c.max_concurrent_scenarios(None);
+                    }
+                    Some(v) => {
+                        c = c.max_concurrent_scenarios(
+                            v.as_u64().map(|n| n as usize),
+                        );
+                    }
+                }
+                if cfg.fail_fast_builder {
+                    c = c.fail_fast();
+                }
+                c = c.retries(cfg.retry_builder).retry_after(
+                    cfg.retry_after_builder_ms.map(Duration::from_millis),
+                );
+                if let Some(f) = &cfg.retry_filter_builder {
+                    c = c.retry_filter(Some(
+                        f.parse::<gherkin::tagexpr::TagOperation>().unwrap(),
+                    ));
+                }
+                c
+            }};
+        }
         let mut fut: Pin<Box<dyn Future<Output = ()>>> =
-            match (cfg.before, cfg.after, late_hooks) {
-                (false, false, _) => app!(basic, |c| c),
-                (true, false, false) => app!(basic.before(before), |c| c),
-                (false, true, false) => app!(basic.after(after), |c| c),
-                (true, true, false) => {
+            match (cfg.before, cfg.after, plain) {
+                (false, false, None) => app!(basic, |c| c),
+                (true, false, None) => app!(basic.before(before), |c| c),
+                (false, true, None) => app!(basic.after(after), |c| c),
+                (true, true, None) => {
                     app!(basic.before(before).after(after), |c| c)
                 }
-                (true, false, true) => app!(basic, |c| c.before(before)),
-                (false, true, true) => app!(basic, |c| c.after(after)),
-                (true, true, true) => {
-                    app!(basic, |c| c.before(before).after(after))
+                (false, false, Some(b)) => app!(b, |c| late_cfg!(c)),
+                (true, false, Some(b)) => {
+                    app!(b, |c| late_cfg!(c).before(before))
+                }
+                (false, true, Some(b)) => {
+                    app!(b, |c| late_cfg!(c).after(after))
+                }
+                (true, true, Some(b)) => {
+                    app!(b, |c| late_cfg!(c).before(before).after(after))
                 }
             };
         drive(
